@@ -234,3 +234,65 @@ func VerifC08CallTree() {
 	vReach("C08.calltree:composed")
 	vAssert(vAnd(vStrEq(first, second), vStrEq(first, third)), "sched:C08.calltree.order: the call-tree DOT report depends on map iteration order")
 }
+
+func init() { vRegister("VerifC15OutputUnit", VerifC15OutputUnit) }
+
+// VerifC15OutputUnit (property C15): with unit=minimum the output unit is
+// chosen from the values as they are displayed, i.e. after -divide_by: the
+// unit of the smallest displayed value (times 100 when the smallest and the
+// total fall into different units and are more than a factor 100 apart).
+func VerifC15OutputUnit() {
+	m := &profile.Mapping{ID: 1, Start: 0x1000, Limit: 0x9000, File: "bin", HasFunctions: true}
+	f1 := &profile.Function{ID: 1, Name: "big", SystemName: "big", Filename: "b.go"}
+	f2 := &profile.Function{ID: 2, Name: "small", SystemName: "small", Filename: "s.go"}
+	l1 := &profile.Location{ID: 1, Mapping: m, Address: 0x1000, Line: []profile.Line{{Function: f1}}}
+	l2 := &profile.Location{ID: 2, Mapping: m, Address: 0x1010, Line: []profile.Line{{Function: f2}}}
+	big, small := vInt64("big"), vInt64("small")
+	vAssume(small >= 1)
+	vAssume(big >= small)
+	vAssume(big < 1<<30)
+	p := &profile.Profile{
+		SampleType: []*profile.ValueType{{Type: "space", Unit: "bytes"}}, PeriodType: &profile.ValueType{Type: "space", Unit: "bytes"}, Period: 1,
+		Mapping: []*profile.Mapping{m}, Function: []*profile.Function{f1, f2}, Location: []*profile.Location{l1, l2},
+		Sample: []*profile.Sample{{Location: []*profile.Location{l1}, Value: []int64{big}}, {Location: []*profile.Location{l2}, Value: []int64{small}}},
+	}
+	ratios := []float64{0, 1.0 / 1024, 1024, 1.0 / (1024 * 1024)}
+	shifts := []int{0, -10, 10, -20}
+	ri := vChoice("ratio", vBound("c15.ratios", len(ratios)))
+	o := &Options{OutputFormat: Text, SampleType: "space", SampleUnit: "bytes", OutputUnit: "minimum", Ratio: ratios[ri],
+		SampleValue: func(v []int64) int64 { return v[0] }}
+	rpt := New(p, o)
+	g := rpt.newGraph(nil)
+	rpt.selectOutputUnit(g)
+	vReach("C15.outputunit:selected")
+	scale := func(v int64) int64 {
+		if sh := shifts[ri]; sh > 0 {
+			return v << uint(sh)
+		} else if sh < 0 {
+			return v >> uint(-sh)
+		}
+		return v
+	}
+	// reference unit of a displayed value: the largest of B, kB, MB, GB, TB that keeps it at or above one
+	unitOf := func(v int64) string {
+		switch {
+		case v >= 1<<50:
+			return "PB"
+		case v >= 1<<40:
+			return "TB"
+		case v >= 1<<30:
+			return "GB"
+		case v >= 1<<20:
+			return "MB"
+		case v >= 1<<10:
+			return "kB"
+		}
+		return "B"
+	}
+	dmin, dmax := scale(small), scale(big+small)
+	want := unitOf(dmin)
+	if unitOf(dmin) != unitOf(dmax) && dmin*100 < dmax {
+		want = unitOf(100 * dmin)
+	}
+	vAssert(o.OutputUnit == want, "C15.outputunit: with unit=minimum the output unit is not the unit of the smallest displayed (divided) value")
+}
